@@ -12,7 +12,11 @@ INNERS = [('Byte', lambda g: g.randint(0, 255)), ('Int16ub', lambda g: g.randint
           ('Prefixed(Byte, GreedyBytes)', lambda g: G.rand_bytes(g, g.randint(0, 5))), ('Array(2, Int16ul)', lambda g: [g.randint(0, 65535), g.randint(0, 65535)]),
           ('Struct("x"/Int24ub, Padding(2))', lambda g: dict(x=g.randint(0, 2 ** 24 - 1))), ('CString("utf8")', lambda g: g.choice(['', 'ab', 'xyz'])),
           ('Pass', lambda g: None), ('Const(b"MZ")', lambda g: None), ('Aligned(4, Byte)', lambda g: g.randint(0, 255)),
-          ('RawCopy(Byte)', lambda g: dict(value=g.randint(0, 255)))]
+          ('RawCopy(Byte)', lambda g: dict(value=g.randint(0, 255))),
+          # inner constructs whose value is a byte string as long as, but different from, what they consume
+          ('ByteSwapped(Bytes(3))', lambda g: G.rand_bytes(g, 2) + b'\x5a'), ('BitsSwapped(Bytes(2))', lambda g: G.rand_bytes(g, 1) + b'\x01'),
+          ('FixedSized(3, ProcessXor(90, GreedyBytes))', lambda g: G.rand_bytes(g, 3)), ('ProcessRotateLeft(3, 1, Bytes(2))', lambda g: G.rand_bytes(g, 1) + b'\x01'),
+          ('ProcessXor(b"\\x01\\x02", Bytes(4))', lambda g: G.rand_bytes(g, 4)), ('Struct("d"/ByteSwapped(Bytes(2)))', lambda g: dict(d=b'\x01' + G.rand_bytes(g, 1)))]
 WRAPS = ['%s', 'Struct("pre"/Bytes(2), "r"/%s, "post"/Byte)', 'Prefixed(Byte, Struct("k"/Byte, "r"/%s))', 'FixedSized(12, Struct("r"/%s))',
          'Struct("h"/Int16ub, "p"/Prefixed(Int8ub, Struct("q"/Byte, "r"/%s)), "t"/Byte)', 'NullTerminated(Struct("r"/%s), term=b"\\xfe\\xfe")',
          'Struct("h"/Byte, "x"/ProcessXor(0, Struct("r"/%s)))', 'Sequence(Byte, Byte, Byte, OffsettedEnd(-1, Struct("r"/%s)), Byte)',
@@ -69,6 +73,19 @@ def o_rawcopy(src, inner, data, start):
         return 'parsing data alone raised %s' % type(e).__name__
     if not C.peq(alone, r['value']) and 'Aligned' not in inner and 'RawCopy' not in inner:
         return 'parsing data alone gives %r, value is %r' % (alone, r['value'])
+    # the parser that compile() generates reports the same bytes and offsets
+    try:
+        cc = C.get(src).compile()
+    except Exception:
+        return None
+    st = io.BytesIO(data)
+    st.seek(start)
+    try:
+        cr = find_raw(cc.parse_stream(st))
+    except Exception as e:
+        return 'the compiled parser raised %s where parse returns a value' % type(e).__name__
+    if cr is None or bytes(cr['data']) != bytes(r['data']) or (cr['offset1'], cr['offset2'], cr['length']) != (r['offset1'], r['offset2'], r['length']):
+        return 'the compiled parser reports data %r at [%r:%r], the stream slice is %r at [%d:%d]' % (cr and cr['data'], cr and cr['offset1'], cr and cr['offset2'], r['data'], r['offset1'], r['offset2'])
     return None
 
 
